@@ -135,6 +135,18 @@ def word_tables(ctx):
                   f"{list(val)}", f"{bad} match the tail of longer words ('thereof', 'basin', 'island'): the "
                   f"section after such a word is ignored / the description is truncated",
                   key=f"TBL|{label}", where=common.loc(fi, node))
+    # a connector must not be a whole description by itself ('ALL', an aliquot)
+    all_rv = ctx.fold.get('rgxlib.aliquots', 'all_regex')
+    simple = ctx.fold.get('rgxlib.aliquots', 'aliquot_unpacker_regex')
+    La, Ls = common.lang(ctx, all_rv), common.lang(ctx, simple)
+    for label, val, fi, node in sites:
+        if 'cull' not in label:
+            continue
+        eaten = [w for w in val if (La.fullmatch(w.strip().upper()) and ' ' not in w.strip())
+                 or Ls.fullmatch(w.strip().upper())]
+        ctx.check(not eaten, 'TBL', f"{label}: no connector is itself a valid description",
+                  detail_bad=f"{eaten} culls a description that consists of that word alone (e.g. 'Sec 36: ALL' ends up empty)",
+                  key=f"TBL|{label}|vocabulary", where=common.loc(fi, node))
     return len(sites)
 
 
